@@ -59,7 +59,7 @@ pub const FEN_SPLICES: [usize; 2] = [1_000, 50_000];
 pub const PARSE_PMOVE_MAXLEN: [usize; 2] = [4, 5];
 pub const PARSE_SMALL_MAXLEN: usize = 3;
 pub const PARSE_MOVE_MUTATIONS: [usize; 2] = [20_000, 600_000];
-pub const PARSE_PGN_GAMES: [usize; 2] = [30, 600];
+pub const PARSE_PGN_GAMES: [usize; 2] = [12, 600];
 pub const PARSE_PGN_MUTATIONS_PER_TEXT: [usize; 2] = [8, 12];
 /// game group: random sessions, their length, exhaustive sequence length.
 pub const GAME_RANDOM_SESSIONS: [usize; 2] = [250, 8_000];
@@ -67,7 +67,7 @@ pub const GAME_RANDOM_MAX_ACTIONS: [usize; 2] = [90, 260];
 pub const GAME_EXHAUSTIVE_LEN: [usize; 2] = [3, 4];
 pub const GAME_HIST_EVERY: usize = 5;
 /// pgn group: base random games (each replayed once per ending variant), maximum length.
-pub const PGN_BASE_GAMES: [usize; 2] = [30, 200];
+pub const PGN_BASE_GAMES: [usize; 2] = [20, 200];
 pub const PGN_MAX_PLIES: usize = 300;
 
 pub const SEEDS_FILE: &str = "/verif/harness/seeds.txt";
